@@ -242,7 +242,8 @@ def _r4_templates(ctx, rule_decode="R4", rule_omit="R6"):
     for label, rel, cfg, fname, callee in (("cvode/dense", DENSE, {"general.method": "dense"}, "Jac", "IJth"),
                                            ("odeint", ODEINT, {}, "Jac::operator()", "j")):
         ctx.saw(rel)
-        items = J.flatten(ctx.tree, rel, cfg)
+        # `{% set %}` variables are read as the expressions they stand for (row / col / neqns hoisted into variables, in or before the loop)
+        items = J.propagate_sets(J.flatten(ctx.tree, rel, cfg))
         sk = Skel(items)
         loops = [(it, off) for it, off in sk.items_in(fname) if it[0] == "for" and J.path(J.unfilter(it[2])[0]) == "ode.jac.rhs"]
         key = f"{label}:{fname}:for ode.jac.rhs"
@@ -254,12 +255,6 @@ def _r4_templates(ctx, rule_decode="R4", rule_omit="R6"):
             ctx.bad(rule_decode, key, (rel, it[5]), f"loop over ode.jac.rhs is filtered/sliced: {J.show(it[2])}")
             continue
         var = it[1]
-        # environment of {% set %} inside / before the loop
-        sets = {}
-        for x, st in J.walk_items(items):
-            if x[0] == "set" and x[1][0] == "name":
-                sets[x[1][1]] = x[2]
-        body_outs = [(x, st) for x, st in J.walk_items(it[3]) if x[0] == "out"]
         # the text between outputs tells the argument positions: IJth(jmatrix, <row>, <col>) = <val>;
         flat = []
         for x, st in J.walk_items(it[3]):
@@ -273,15 +268,6 @@ def _r4_templates(ctx, rule_decode="R4", rule_omit="R6"):
             ctx.bad(rule_decode, key, (rel, it[5]), f"no `{callee}(.., row, col) = value;` assignment found in the loop body", found=txt.replace("\x00", "#")[:120])
             continue
         rowe, cole, vale = (flat[int(g)][1] for g in mm.groups())
-
-        def res(e):
-            # resolve {% set %} names
-            if len(e) == 2 and e[0] == "name" and e[1] in sets:
-                return sets[e[1]]
-            if isinstance(e, tuple):
-                return tuple(res(x) if isinstance(x, tuple) else x for x in e)
-            return e
-        rowe, cole = res(rowe), res(cole)
         nrow = ("attr", ("attr", ("name", "ode"), "jac"), "nrow")
         idx0 = ("attr", ("name", "loop"), "index0")
         row_ok = rowe == ("filter", "int", ("bin", "/", idx0, nrow), (), ()) or rowe == ("bin", "//", idx0, nrow)
@@ -478,5 +464,7 @@ BENIGN = [
         {"file": T, "old": "zip(lhs, rhs)", "new": "zip(lhs, derivs)"}]},
     {"name": "modifier-copy-by-list", "file": T, "old": "depsymcopy = depsym.copy()", "new": "depsymcopy = list(depsym)"},
     {"name": "list-instead-of-copy", "file": T, "old": "rsymcopy = rsym.copy()", "new": "rsymcopy = list(rsym)", "count": 4},
+    {"name": "odeint-decode-in-set-variables", "file": ODEINT, "old": "j({{ (loop.index0/neqns) | int }}, {{ loop.index0%neqns }})",
+     "new": "{% set irow = loop.index0 // neqns -%}{% set icol = loop.index0 % neqns -%}j({{ irow }}, {{ icol }})"},
     {"name": "index-commuted", "file": T, "old": "jacrhs[specidx * n_eqns + ri] += term", "new": "jacrhs[ri + n_eqns * specidx] += term", "count": 2},
 ]
